@@ -17,8 +17,59 @@ def contains(node, pred):
     return any(pred(n) for n in ast.walk(node))
 
 
+WRITE_HELPERS = set()      # module-level functions H(pipe, buf) verified to write every byte of buf (see write_all_helpers)
+
+
 def is_write(n):
-    return isinstance(n, ast.Call) and isinstance(n.func, ast.Attribute) and n.func.attr == 'write' and unparse(n.func.value) == 'pipe'
+    if isinstance(n, ast.Call) and isinstance(n.func, ast.Attribute) and n.func.attr == 'write' and unparse(n.func.value) == 'pipe':
+        return True
+    return isinstance(n, ast.Call) and isinstance(n.func, ast.Name) and n.func.id in WRITE_HELPERS and len(n.args) == 2 and unparse(n.args[0]) == 'pipe' and not n.keywords
+
+
+def wdata(n):
+    """The bytes a write call emits: the argument of pipe.write / the second argument of a write-all helper; `x.tobytes()` of a scalar header is x."""
+    d = n.args[0] if isinstance(n.func, ast.Attribute) else n.args[1]
+    return d
+
+
+def _strip_tobytes(d):
+    if isinstance(d, ast.Call) and isinstance(d.func, ast.Attribute) and d.func.attr == 'tobytes' and not d.args and not d.keywords:
+        return d.func.value
+    return d
+
+
+def write_all_helpers(tree):
+    """Module-level functions  def H(pipe, buf): [buf = memoryview(buf)]; while len(buf): n = pipe.write(buf); ...; buf = buf[n:]
+    -- a loop that keeps writing until the stream has taken every byte (a raw stream takes at most one system call's worth per write)."""
+    out = set()
+    for f in tree.body:
+        if not (isinstance(f, ast.FunctionDef) and len(f.args.args) == 2 and not f.decorator_list):
+            continue
+        P, B = [a.arg for a in f.args.args]
+        loops = [n for n in f.body if isinstance(n, ast.While)]
+        if len(loops) != 1 or loops[0].orelse:
+            continue
+        W = loops[0]
+        if unparse(W.test) not in (f'len({B})', B, f'len({B}) > 0', f'{B}.nbytes'):
+            continue
+        wr = [x for x in W.body if isinstance(x, ast.Assign) and isinstance(x.value, ast.Call) and unparse(x.value) == f'{P}.write({B})' and isinstance(x.targets[0], ast.Name)]
+        if len(wr) != 1:
+            continue
+        nv = wr[0].targets[0].id
+        adv = [x for x in W.body if isinstance(x, ast.Assign) and unparse(x.targets[0]) == B and unparse(x.value) == f'{B}[{nv}:]']
+        if len(adv) != 1 or W.body.index(adv[0]) < W.body.index(wr[0]):
+            continue
+        # between the write and the advance only checks that leave by raising; nothing else may change B or the count
+        mid = W.body[W.body.index(wr[0]) + 1:W.body.index(adv[0])]
+        if any(not (isinstance(m, ast.If) and not m.orelse and all(isinstance(y, ast.Raise) for y in m.body)) for m in mid):
+            continue
+        pre = [x for x in f.body[:f.body.index(W)] if not (isinstance(x, ast.Expr) and isinstance(x.value, ast.Constant))]
+        if any(not (isinstance(x, ast.Assign) and unparse(x.targets[0]) == B and unparse(x.value) in (f'memoryview({B})', f"memoryview({B}).cast('B')")) for x in pre):
+            continue
+        if any(isinstance(x, (ast.Return, ast.Break, ast.Continue)) for x in ast.walk(f)):
+            continue
+        out.add(f.name)
+    return out
 
 
 def _ensure_contig(s):
@@ -57,6 +108,16 @@ def _expand(node, scope, upto, strip_contig=False, depth=0):
         if d > 8:
             return n
         if strip_contig:
+            # a flat byte view of the same memory: X.reshape(-1), X.view(np.uint8)  (no copy, no reordering)
+            if isinstance(n, ast.Call) and isinstance(n.func, ast.Attribute) and not n.keywords and \
+                    ((n.func.attr == 'reshape' and [unparse(a_) for a_ in n.args] in (['-1'], ['(-1,)'])) or
+                     (n.func.attr == 'view' and [unparse(a_) for a_ in n.args] in (['np.uint8'], ['np.ubyte'], ["'u1'"], ["'B'"]))):
+                return go(n.func.value, d + 1)
+            # X.ravel() / X.ravel(order='C') / X.flatten(): the elements in C order (a copy when the memory is not already so)
+            if isinstance(n, ast.Call) and isinstance(n.func, ast.Attribute) and n.func.attr in ('ravel', 'flatten') and not n.args and \
+                    all(k_.arg == 'order' and unparse(k_.value) in ("'C'", '"C"') for k_ in n.keywords):
+                contig[0] = True
+                return go(n.func.value, d + 1)
             inner = _contig_call(n)
             if inner is None and isinstance(n, ast.Call) and isinstance(n.func, ast.Attribute) and n.func.attr == 'tobytes' and not n.args and not n.keywords:
                 inner = n.func.value
@@ -129,9 +190,21 @@ def run(chk):
     chk.rule('C20-R2', 'per field: write(count:int64) ; write(width:int32) ; for each file write(payload) -- in this order, count = sum of prod(shape), width = itemsize', 5)
     chk.rule('C20-R3', 'fields and files are iterated in argument order; the CLI forwards -f occurrences and file arguments in order', 3)
     chk.rule('C20-R5', 'nothing but the framed stream goes to the pipe: every print in the module is directed to sys.stderr, no sys.stdout.write', 1)
+    chk.rule('C20-R6', 'every byte handed to the pipe is written: writes loop on the count returned by the stream', 1)
     chk.rule('C20-R4', 'reader agreement: client.c reads sizeof(int64_t), sizeof(int), payload per field; docstring says 8-byte and 4-byte ints', 2)
     chk.assume('the bytes asdf/blosc deliver for the payload arrays are not modelled')
     body = fn.body
+    WRITE_HELPERS.clear()
+    WRITE_HELPERS.update(write_all_helpers(src.tree(PA)))
+    # module-level functions that are handed the pipe but are not recognised as complete-write loops: their calls are still the writes of
+    # the stream (for the framing rules), and the completeness rule R6 names them
+    modf = {f_.name for f_ in src.tree(PA).body if isinstance(f_, ast.FunctionDef)}
+    unverified = sorted({n.func.id for n in walk_no_nested(fn) if isinstance(n, ast.Call) and isinstance(n.func, ast.Name) and n.func.id in modf and len(n.args) == 2
+                         and unparse(n.args[0]) == 'pipe' and n.func.id not in WRITE_HELPERS
+                         and any(isinstance(x, ast.Call) and isinstance(x.func, ast.Attribute) and x.func.attr == 'write' for f_ in src.tree(PA).body
+                                 if isinstance(f_, ast.FunctionDef) and f_.name == n.func.id for x in ast.walk(f_))})
+    verified = set(WRITE_HELPERS)
+    WRITE_HELPERS.update(unverified)
     # ---- R1
     first_write = next((i for i, s in enumerate(body) if contains(s, is_write)), None)
     if first_write is None:
@@ -158,6 +231,35 @@ def run(chk):
             okv = any(isinstance(b, ast.If) and unparse(b.test) == f'{fld} not in {af}.tree[data_key]' and any(isinstance(x, ast.Raise) for x in b.body)
                       for b in inner[0].body)
     chk.check(okv, 'C20-R1', PA, Q, 'every (file, field) pair is checked for presence', '', 'the missing-field check no longer covers all files x all fields', node=vchk[0] if vchk else fn)
+    # one item width is announced per field: files that disagree on it are refused with the other unframeable inputs, before any write
+    pre_raises = [n for st_ in body[:first_write] for n in ast.walk(st_) if isinstance(n, ast.If) and any(isinstance(r_, ast.Raise) for r_ in n.body)]
+    ldefs_ = {}
+    for st_ in body[:first_write]:
+        for n in ast.walk(st_):
+            if isinstance(n, ast.Assign) and len(n.targets) == 1 and isinstance(n.targets[0], ast.Name):
+                ldefs_.setdefault(n.targets[0].id, []).append(n.value)
+
+    def _mentions_itemsize(t):
+        for x in ast.walk(t):
+            if isinstance(x, ast.Attribute) and x.attr == 'itemsize':
+                return True
+            if isinstance(x, ast.Name) and any(isinstance(y, ast.Attribute) and y.attr == 'itemsize' for v_ in ldefs_.get(x.id, []) for y in ast.walk(v_)):
+                return True
+        return False
+    okw_ = any(_mentions_itemsize(n.test) and isinstance(n.test, ast.Compare) and isinstance(n.test.ops[0], (ast.NotEq, ast.Eq)) for n in pre_raises)
+    chk.check(okw_, 'C20-R1', PA, Q, 'files that disagree on the item width of a field are refused before any write', '',
+              'nothing compares the item width of a field across the files before writing: the width header is that of the LAST file, so with a float32 column in one file and a '
+              'float64 column of the same name in another the announced count x width differs from the payload and the client reads the next header inside it', node=body[first_write], nontrivial=False)
+    # ---- R6: the stream takes every byte
+    direct = [n for n in walk_no_nested(fn) if isinstance(n, ast.Call) and isinstance(n.func, ast.Attribute) and n.func.attr == 'write' and unparse(n.func.value) == 'pipe']
+    if unverified:
+        chk.refuted('C20-R6', PA, Q, 'the write helper loops until the stream has taken every byte',
+                    f'{unverified} write to the pipe but are not of the form `while len(buf): n = pipe.write(buf); buf = buf[n:]`: a short write of a raw stream '
+                    '(python -u: at most 0x7ffff000 bytes per call) leaves the rest of the buffer unwritten or re-sends bytes', node=fn)
+    chk.check(not direct and bool(verified) and not unverified, 'C20-R6', PA, Q, 'every write goes through a loop that continues until all bytes are taken', f'helpers {sorted(verified)}',
+              f'{len(direct)} direct pipe.write(...) call(s) whose result is ignored (first: {unparse(direct[0])[:50] if direct else None}): sys.stdout.buffer is a raw stream under '
+              '`python -u` / PYTHONUNBUFFERED, which transfers at most 0x7ffff000 bytes per write and returns the count: a column above 2 GiB is cut short after its header '
+              'announced count x width bytes', node=direct[0] if direct else fn, nontrivial=False)
     # ---- R2
     floops = [s for s in body if isinstance(s, ast.For) and unparse(s.iter) == 'fields' and contains(s, is_write)]
     if len(floops) != 1:
@@ -180,7 +282,7 @@ def run(chk):
               f'per-field writes are {kinds}; the format is header(count), header(width), then payloads', node=F)
     if kinds[:2] != ['scalar', 'scalar'] or 'payload' not in kinds:
         return
-    cnt, wid = unparse(seq[0][1].args[0]), unparse(seq[1][1].args[0])
+    cnt, wid = unparse(_strip_tobytes(wdata(seq[0][1]))), unparse(_strip_tobytes(wdata(seq[1][1])))
     # count variable: np.int64(0) then += prod(shape) over afs
     cdef = [s for s in F.body if isinstance(s, ast.Assign) and unparse(s.targets[0]) == cnt]
     okc = len(cdef) == 1 and unparse(cdef[0].value) == 'np.int64(0)' and F.body.index(cdef[0]) < [F.body.index(s) for s in F.body if isinstance(s, ast.Expr) and is_write(s.value)][0]
@@ -220,7 +322,7 @@ def run(chk):
     okp = len(pay) == 1 and wstmt is not None and isinstance(pl.target, ast.Name)
     contiguous, payload_txt, want_txt = False, None, None
     if okp:
-        val, contiguous = _expand(wcall.args[0], pl.body, pl.body.index(wstmt), strip_contig=True)
+        val, contiguous = _expand(wdata(wcall), pl.body, pl.body.index(wstmt), strip_contig=True)
         payload_txt = unparse(val)
         if unparse(pl.iter) == 'afs':
             want_txt = f'{pl.target.id}[data_key][{fld}][:]'
